@@ -377,6 +377,11 @@ func (rw *rewriter) run() {
 					if n := sel.Sel.Name; !sysFuncs[n] && !pureSysFuncs[n] && !strings.HasPrefix(n, "Sockaddr") {
 						rw.rep.Unmodelled = append(rw.rep.Unmodelled, fmt.Sprintf("%s: %s.%s", rw.fset.Position(call.Pos()), rw.pkgOf(sel.X), n))
 					}
+				case "net":
+					// only net.Dial goes through the simulated network (R4)
+					if n := sel.Sel.Name; n != "Dial" && (strings.HasPrefix(n, "Dial") || strings.HasPrefix(n, "Listen") || strings.HasPrefix(n, "File")) {
+						rw.rep.Unmodelled = append(rw.rep.Unmodelled, fmt.Sprintf("%s: net.%s", rw.fset.Position(call.Pos()), n))
+					}
 				}
 			}
 		}
